@@ -81,8 +81,8 @@ ARITH_TABLE = [
     (r"^eval::evaluate$", 'Overflow:Sub', 15, 'xs.len() - 1 for a non-empty Sequence; the 14 others are Break/Continue(n - 1) after the n == 0 arm (C05 R5.4)'),
     (r"^<SeqAndMappedFoldBuiltin as core::Builtin>::run[12]?$", 'Overflow:Sub', 1, 'Break(n - 1) after the Break(0) arm (C05 R5.4)'),
     (r"^builtin\(hex_decode\)$", 'RemainderByZero', 2, 'remainder by the constant 2'),
-    (r"^initialize::\{closure#\d+\}::val$", 'Overflow:Sub', 3, 'c - b\'A\' etc. inside the matching range arm'),
-    (r"^initialize::\{closure#\d+\}::val$", 'Overflow:Add', 2, '(c - base) + 10 <= 15'),
+    (r"^builtin\(hex_decode\)::val$", 'Overflow:Sub', 3, 'c - b\'A\' etc. inside the matching range arm'),
+    (r"^builtin\(hex_decode\)::val$", 'Overflow:Add', 2, '(c - base) + 10 <= 15'),
     (r"^builtin\(hex_decode\)::\{closure#[01]\}$", 'Overflow:Shl', 1, 'shift by the constant 4 on u8'),
     (r"^builtin\(b_spline\)$", 'Overflow:Sub', 2, 'len - 1 after len == 0 returned; i - 1 under i > 0'),
     (r"^lex::Lexer::<'a>::emit_but_last$", 'Overflow:Sub', 2, 'called only after at least one character of the current token was consumed: col, index >= 1'),
@@ -94,13 +94,13 @@ ARITH_TABLE = [
 ]
 
 # error-discarding idioms (R14.3): function-key regex -> reason
-DISCARD_TABLE = [
-    (r"^<streams::(Mapped|Zipped|Filtered)Stream as (std::iter::Iterator|core::Stream)>::(next|peek)$",
+# R14.3: idioms that look at an NRes without propagating its error - `.ok()`, `is_ok()`, `is_err()`, `unwrap_or*`, `or*`, `err()` calls and
+# `Err(_)` match arms are interchangeable spellings of the same thing and share one budget per function: fn-key regex, count, reason
+DISCARD_BUDGET = [
+    (r"^<streams::(Mapped|Zipped|Filtered)Stream as (std::iter::Iterator|core::Stream)>::(next|peek)$", 1,
      'lazy streams keep their error state in self.0: `.as_mut().ok()?` reads the Ok side, the Err side is reported by the match below it'),
-    (r"^(sorted|sorted_by|sorted_on)::\{closure#\d+\}$", 'sort comparator: once an error was recorded (ret.is_err()) the remaining comparisons are skipped; the error is returned after the sort'),
-    (r"^<Replace as core::Builtin>::run::\{closure#\d+\}$", 'regex replacement callback: after the first error the remaining matches are left unchanged and the error is returned afterwards'),
-]
-ERR_WILD_ARMS = [
+    (r"^(sorted|sorted_by|sorted_on)(::\{closure#\d+\})?$", 1, 'sort comparator: once an error was recorded (ret.is_err()) the remaining comparisons are skipped; the error is returned after the sort'),
+    (r"^<Replace as core::Builtin>::run(::\{closure#\d+\})?$", 1, 'regex replacement callback: after the first error the remaining matches are left unchanged and the error is returned afterwards'),
     (r"^eval::evaluate$", 2, 'switch: a pattern that does not match is not an error, the next arm is tried; try/catch: a catch pattern that does not match re-raises the original error'),
     (r"^eval::assign$", 1, 'Lvalue::Or: the first alternative did not match, try the second'),
     (r"^<SeqAndMappedFoldBuiltin as core::Builtin>::run[12]?$", 1, 'e @ Err(_) => return e: propagated unchanged'),
